@@ -5,6 +5,7 @@ Run by check.py when a proof build fails:  lake env lean --run SpdxVerif/Diag.le
 import SpdxVerif.Spec.Version
 import SpdxVerif.Spec.Census
 import SpdxVerif.Gen.Json
+import SpdxVerif.Spec.Consts
 open Spdx
 
 def showB (b : Bytes) : String := String.ofList (b.map (fun c => Char.ofNat c))
@@ -59,3 +60,11 @@ def main (args : List String) : IO Unit := do
     report "no_concurrency_primitives (go / chan / select / unsafe)" noConcurrencyPrimitives []
     report "no_output (print calls, forbidden imports)" noOutput ((Census.imports.filter (fun p => bytesIn p.2 forbiddenImports)).map (·.2))
     report "caller_slices_untouched" callerSlicesUntouched (((reach 6 exportedParams).filter (fun p => !(p.2.2.2.1 == 0))).map (fun p => p.1 ++ [40] ++ p.2.1 ++ [41]))
+  -- the literal census (Props/Consts.lean): print what the tree under check says, for comparison with the expectations
+  for fn in ["expressionStream.readOperator", "expressionStream.readDocumentRef", "expressionStream.readLicenseRef",
+             "expressionStream.readID", "expressionStream.skipWhitespace", "expressionStream.normalizeLicense",
+             "tokenStream.parseLicense", "tokenStream.parseWith", "tokenStream.parseLicenseRef",
+             "tokenStream.parseParenthesizedExpression", "tokenStream.parseAnd", "tokenStream.parseExpression",
+             "tokenStream.parseAtom", "node.isAndExpression", "node.isOrExpression", "simplifyLicense",
+             "node.reconstructedLicenseString"] do
+    IO.println s!"OBLIGATION literals of {fn}: strings={showL (ConstsPin.litsOf fn)} ints={ConstsPin.intsOf fn}"
